@@ -101,6 +101,12 @@ Theorem C19_one_reference_left :
   forall st, SInv st -> 1 <= nstreams st -> refs st = 1 -> nstreams st = 1 /\ handles st = [].
 Proof. exact one_reference_left. Qed.
 
+Theorem C19_known_evict_rejected :
+  srun (sinit None None 0%Z 20%Z None)
+       [ LInsert 0 1 1; LPush KCap (0, 1); LTransitionAfter (0, 1) (mkSO true false false true); LQuiesce;
+         LPop KCap; LQuiesce ] = inr (5, SStuck 9).
+Proof. exact known_evict_rejected. Qed.
+
 Theorem C19_nonvacuous :
   match srun (sinit (Some 5%Z) None 10%Z 20%Z None) demo_slabels with
   | inl (Some (st, outs)) =>
